@@ -1,8 +1,8 @@
 SPECIFICATION Spec
 CONSTANTS
   OffsMod = 65536
-  Part = "perm8"
-  K = 1
-  Auto = TRUE
+  Part = "viabr"
+  K = 3
+  Auto = FALSE
 INVARIANTS Emit AutoSatisfiesDecl DeclMeta StringOK
 CHECK_DEADLOCK FALSE
